@@ -102,8 +102,11 @@ end
 theorem visitVarDefG (h : WalkAlgV c Q) (v : VarDef) (st : St) : Q (varDefNodes v) st (visitVarDef c v st) := by
   rw [visitVarDef, varDefNodes]
   refine h.node _ _ _ st rfl rfl (fun st => ?_)
-  have key : ∀ st', Q [.typeNode v.type] st' (visitNode c (.typeNode v.type) id st') :=
+  have key0 : ∀ st', Q [.typeNode v.type] st' (visitNode c (.typeNode v.type) id st') :=
     fun st' => h.node _ id [] st' rfl rfl (fun st => h.nil st)
+  have key : ∀ st', Q (.typeNode v.type :: dirsNodes v.dirs) st'
+      (visitDirectives c v.dirs (visitNode c (.typeNode v.type) id st')) :=
+    fun st' => h.append (key0 st') (visitDirectivesG h v.dirs _)
   cases hd : v.default with
   | none => simpa using key st
   | some d => simp only; exact h.append (h.value d st) (key _)
